@@ -3,5 +3,5 @@ CONSTANTS
   NPs = {2}
   MaxFields = 2
   Later = {"tx"}
-  IndDims = {"perms", "acro", "fields"}
+  IndDims = {"perms", "acro", "fields", "kids"}
 INVARIANTS KeepDisjoint NoSigNoPerms FlagsDoNotSign Emit
